@@ -26,6 +26,15 @@ Theorem C14_bytes : forall input, let c := from_bytes input in
 Proof. exact from_str_spec. Qed.
 Print Assumptions C14_bytes.
 
+Theorem C14_string : forall input, let c := from_string input in
+  bytes c = prefix_to_nul input ++ [0] /\
+  string_size (bytes c) = Some (alloc_size c) /\
+  as_ref c = Ok (prefix_to_nul input) /\
+  drop_cstring c = Ok (alloc_size c) /\
+  leaked_extra c = 0%nat.
+Proof. exact from_str_spec. Qed.
+Print Assumptions C14_string.
+
 (* clones are equal by content and independently owned *)
 Theorem C14_clone : forall input,
   exists c2, clone_cstring (from_str input) = Ok c2 /\ as_ref c2 = Ok (prefix_to_nul input) /\
